@@ -4,6 +4,7 @@ package props
 
 import (
 	"fmt"
+	"reflect"
 	"strings"
 
 	"github.com/TimothyStiles/poly"
@@ -127,13 +128,25 @@ func c2one(r *mc.Recorder, e *locExpr, parents []string, cnt *int64) {
 		}
 		*cnt += 2
 	}
-	// (c) structure -> text: valid INSDC, same bases, same partial ends
+	// (c) structure -> text: valid INSDC, same bases, same partial ends; the structure that was written is
+	// still the same afterwards (writing is not allowed to alter what it is given)
 	var written string
-	if p := catch(func() { written = genbank.BuildLocationString(e.toPoly()) }); p != "" {
+	held := poly.Sequence{Sequence: parents[0]}
+	hf := poly.Feature{Type: "misc_feature", SequenceLocation: e.toPoly()}
+	held.AddFeature(&hf)
+	if p := catch(func() { written = genbank.BuildLocationString(held.Features[0].SequenceLocation) }); p != "" {
 		r.Failf("written-location", txt, tags, txt, "panic: "+p)
 		return
 	}
 	*cnt++
+	if !reflect.DeepEqual(held.Features[0].SequenceLocation, e.toPoly()) {
+		r.Failf("writing-leaves-location-unchanged", txt, tags, fmt.Sprintf("%+v", e.toPoly()), fmt.Sprintf("%+v", held.Features[0].SequenceLocation))
+	} else {
+		var g string
+		if p := catch(func() { g = held.Features[0].GetSequence() }); p != "" || g != e.eval(parents[0]) {
+			r.Failf("writing-leaves-location-unchanged", txt+" on "+parents[0], tags, e.eval(parents[0]), g+p)
+		}
+	}
 	back, err := insdcParse(written)
 	if err != nil {
 		r.Failf("written-location-valid-insdc", txt, tags, "valid INSDC syntax, e.g. "+txt, written+" ("+err.Error()+")")
